@@ -407,8 +407,8 @@ type observation struct {
 	Nil       bool      `json:"nil"`
 	Cc        []call    `json:"cc"`
 	Steps     []stepObs `json:"steps"`
-	Post      []any     `json:"post"`      // [Value(), Next()] of the exhausted iterator; [] when nil or not probed
-	PostPanic string    `json:"postpanic"` // the probe panicked (nobody promises it does not)
+	Post      []any     `json:"post"`      // [Value()] of the exhausted iterator, ["panic"] when that panics; [] when nil or not probed
+	PostPanic string    `json:"postpanic"` // the panic of the probe (nobody promises it does not)
 	Truncated bool      `json:"truncated"` // gave up after `limit` steps
 	Panic     string    `json:"panic"`     // the library panicked while constructing / draining
 	SrcOK     bool      `json:"srcok"`
@@ -460,11 +460,11 @@ func observe(kind string, e *Expr, limit int) (o observation) {
 			defer func() {
 				if r := recover(); r != nil {
 					o.PostPanic = recovered(r)
+					o.Post = []any{"panic"}
 				}
 			}()
 			it, _ := c.value()
-			ok := c.next()
-			o.Post = []any{it, ok}
+			o.Post = []any{it}
 		}()
 	}
 	return o
